@@ -697,7 +697,7 @@ pub fn in_process_parts(run: &Run, mode: Mode, cases: u32) {
     if !corpus.is_empty() {
         run.exhaustive(&format!("byte-coded histories: committed coverage-distilled corpus ({} inputs, oracle of {})", corpus.len(), mode.id()), &corpus, |_| (), |b: &Vec<u8>, st, _| run_bytes(run, mode, b, st));
     }
-    // generated: header bytes free, op bytes biased towards typing
+    // generated: header bytes free; half of the inputs free-form (op bytes biased towards typing), half structured
     let strat = || {
         let op = prop_oneof![
             6 => (0u8..16, any::<u8>()).prop_map(|(h, a)| vec![(h << 4) | 5, a]),
@@ -711,13 +711,45 @@ pub fn in_process_parts(run: &Run, mode: Mode, cases: u32) {
             2 => (0u8..16, any::<u8>(), any::<u8>()).prop_map(|(h, a, b)| vec![(h << 4) | 14, a, b]),
             1 => (0u8..16, any::<u8>()).prop_map(|(h, a)| vec![(h << 4) | 15, a]),
         ];
-        (proptest::collection::vec(any::<u8>(), 6), proptest::collection::vec(op, 1..40)).prop_map(|(h, ops)| {
+        let free = (proptest::collection::vec(any::<u8>(), 6), proptest::collection::vec(op, 1..40)).prop_map(|(h, ops)| {
             let mut v = h;
             for o in ops {
                 v.extend(o);
             }
             v
-        })
+        });
+        // structured: a few texts (a pool word or a short run of characters) that come back again and again, each ended
+        // in one of six ways, with at most one other thing in between (a single option flip, a layout switch, a
+        // user-list edit, a restart): "the same text on both sides of X" for every X the byte code knows
+        let text = prop_oneof![
+            3 => (0u8..16, any::<u8>()).prop_map(|(h, a)| vec![(h << 4) | 5, a]),
+            2 => proptest::collection::vec((0u8..8, any::<u8>()).prop_map(|(h, a)| vec![(h << 4) | 1, a]), 1..4).prop_map(|v| v.concat()),
+        ];
+        let ending = prop_oneof![
+            2 => Just(vec![13u8]),
+            2 => any::<u8>().prop_map(|f| vec![11u8, f]),
+            1 => Just(vec![0x0bu8, 0]),
+            1 => Just(vec![10u8]),
+            2 => (1usize..7).prop_map(|k| vec![8u8; k]),
+            1 => Just(vec![]),
+        ];
+        let between = prop_oneof![
+            5 => Just(vec![]),
+            3 => (0u8..8, 0u8..11).prop_map(|(h, b)| vec![(h << 4) | 14, b]),
+            1 => (8u8..12, any::<u8>()).prop_map(|(h, a)| vec![(h << 4) | 14, a]),
+            1 => (8u8..16, any::<u8>()).prop_map(|(h, f)| vec![(h << 4) | 15, f]),
+            1 => Just(vec![0x0fu8]),
+        ];
+        let structured = (proptest::collection::vec(any::<u8>(), 6), proptest::collection::vec(text, 1..4), proptest::collection::vec((0usize..4, ending, between), 2..12)).prop_map(|(h, texts, steps)| {
+            let mut v = h;
+            for (ti, e, b) in steps {
+                v.extend(&texts[ti % texts.len()]);
+                v.extend(e);
+                v.extend(b);
+            }
+            v
+        });
+        prop_oneof![1 => free, 1 => structured]
     };
     run.sharded(&format!("byte-coded histories: generated (oracle of {})", mode.id()), 16, cases, 300, strat, |_| (), |b: &Vec<u8>, st, _| run_bytes(run, mode, b, st));
 }
